@@ -32,6 +32,38 @@ def lines_spec(gs, c0, c1):
     return "".join(gs[s:e])
 
 
+def block_spec(gs, c0, c1):
+    """rows of the rectangle spanned by the two cursor positions: the lines between them, the columns between
+    theirs (both included), each row cut at its line's last character (terminators are never part of a row)"""
+    n = len(gs)
+    if n == 0 or c0 >= n or c1 >= n:
+        return None
+    lines, s = [], 0
+    for i, g in enumerate(gs):
+        if g == "\n":
+            lines.append((s, i))
+            s = i + 1
+    if s < n:
+        lines.append((s, n))
+
+    def where(c):
+        for li, (a, b) in enumerate(lines):
+            if a <= c <= b:
+                return li, c - a
+        return None
+    w0, w1 = where(c0), where(c1)
+    if w0 is None or w1 is None:
+        return None
+    (l0, k0), (l1, k1) = w0, w1
+    rows = []
+    for li in range(min(l0, l1), max(l0, l1) + 1):
+        a, b = lines[li]
+        x = min(a + min(k0, k1), b)
+        y = min(a + max(k0, k1) + 1, b)
+        rows.append("".join(gs[x:max(x, y)]))
+    return "\n".join(rows)
+
+
 def gen_case(r):
     text = gen.text(r, max_lines=4)
     pre = []
@@ -47,9 +79,17 @@ def gen_case(r):
     elif k < 0.8:
         cmd, kind = "v" + r.choice(gen.TEXTOBJS), "textobj"
     elif k < 0.86:
-        cmd, kind = "<c-v>" + "".join(r.choice(["j", "l", "k", "h", "2l", "w"]) for _ in range(r.randint(1, 3))), "block"
+        cmd, kind = "<c-v>" + "".join(r.choice(["j", "l", "k", "h", "2l", "w", "e", "4l", "2j"]) for _ in range(r.randint(1, 3))), "block"
     else:
         cmd, kind = gen.passive_cmd(r), "passive"
+    if kind == "block" and r.random() < 0.6:
+        # short lines of unequal length, with and without a final terminator, the block's corners anywhere (also on
+        # the last character of the last line): the rectangle has to be clipped per line
+        ls = ["".join(r.choice(["a", "b", "c", "é", "日", "x", " ", "d"]) for _ in range(r.randint(1, 5))) for _ in range(r.randint(2, 4))]
+        text = "\n".join(ls) + ("\n" if r.random() < 0.5 else "")
+        pre = [["move", r.choice(["", "j", "2j", "G", "jj"]) + r.choice(["", "l", "2l", "3l", "4l", "0"])]]
+        pre = [p for p in pre if p[1]]
+        cmd = "<c-v>" + "".join(r.choice(["j", "l", "k", "h", "2l", "3l", "4l", "2j", "2k", "2h"]) for _ in range(r.randint(1, 3)))
     return {"text": text, "pre": pre, "cmd": cmd, "kind": kind}
 
 
@@ -146,6 +186,17 @@ def run(tier, seed, replay=None):
             R.count("block_selection_checked")
             if res["ok"] != want:
                 R.violation("block selection %r is not the rows of its windows %s: %r" % (res["ok"][:80], ws[:6], want[:80]), c)
+            # the selected text of a block, computed from the two cursors alone (not from the editor's windows): the
+            # rectangle between the anchor (the cursor before the command) and the cursor, on the lines between them
+            if c["kind"] == "block":
+                want2 = block_spec(gs, c0, c1)
+                R.count("block_rectangle_checked")
+                if want2 is not None and (gs[c0] == "\n" or gs[c1] == "\n"):
+                    R.count("block_corner_on_terminator")
+                    if res["ok"] != want2:
+                        R.count("block_corner_on_terminator_differs")
+                elif want2 is not None and res["ok"] != want2:
+                    R.violation("block selection %r is not the rectangle between cursor %d and %d: %r" % (res["ok"][:80], c0, c1, want2[:80]), c)
         else:
             R.count("selected_by_model_only")
     close_servers()
